@@ -1008,19 +1008,41 @@ func c10RunSkeleton(f *ast.File) (string, error) {
 		return "", fmt.Errorf("runner.run: haveOnStart := %s", flag0)
 	}
 	k.seen++
-	d, ok := l[1].(*ast.DeferStmt)
-	if !ok {
+	// the deferred bookkeeping: `defer func() { … }()`, or the same closure bound to a local name first
+	// (`f := func() { … }; defer f()`, f mentioned nowhere else: the closure is inlined)
+	var fl *ast.FuncLit
+	rest := l[2:]
+	if d, ok := l[1].(*ast.DeferStmt); ok {
+		if fl, ok = d.Call.Fun.(*ast.FuncLit); !ok || len(d.Call.Args) != 0 {
+			return "", fmt.Errorf("runner.run: defer of something else than a function literal")
+		}
+	} else if as2, ok := l[1].(*ast.AssignStmt); ok && as2.Tok == token.DEFINE && len(as2.Lhs) == 1 && len(as2.Rhs) == 1 {
+		name, isId := as2.Lhs[0].(*ast.Ident)
+		lit, isLit := as2.Rhs[0].(*ast.FuncLit)
+		d, isDefer := l[2].(*ast.DeferStmt)
+		if !isId || !isLit || !isDefer || len(d.Call.Args) != 0 || c10ExprStr(d.Call.Fun) != name.Name ||
+			(lit.Type.Params != nil && len(lit.Type.Params.List) != 0) {
+			return "", fmt.Errorf("runner.run: the second statement is not the deferred bookkeeping")
+		}
+		uses := 0
+		ast.Inspect(fn.Body, func(n ast.Node) bool {
+			if id, ok := n.(*ast.Ident); ok && id.Name == name.Name {
+				uses++
+			}
+			return true
+		})
+		if uses != 2 || len(l) < 4 {
+			return "", fmt.Errorf("runner.run: the closure %s of the deferred bookkeeping is used elsewhere", name.Name)
+		}
+		fl, rest = lit, l[3:]
+	} else {
 		return "", fmt.Errorf("runner.run: the second statement is not the deferred bookkeeping")
-	}
-	fl, ok := d.Call.Fun.(*ast.FuncLit)
-	if !ok || len(d.Call.Args) != 0 {
-		return "", fmt.Errorf("runner.run: defer of something else than a function literal")
 	}
 	def, err := k.stmts(fl.Body.List, true, false)
 	if err != nil {
 		return "", err
 	}
-	body, err := k.stmts(l[2:], false, false)
+	body, err := k.stmts(rest, false, false)
 	if err != nil {
 		return "", err
 	}
